@@ -31,20 +31,21 @@ class _Reporting:
     def _init_reporting(self):
         self.findings = []        # findings of the current path
         self.outcome = None       # JSON-able summary of what the code returned on this path (evidence, trace validation)
-        self.known = []           # [(finding id, z3 predicate over the inputs)] - known findings applicable to this job
+        self.known = []           # [(finding id, z3 predicate over the inputs, kinds or None)] - known findings applicable to this job
         self.known_hits = {}
 
     def report(self, kind, detail='', cond=None):
         """a violation on this path.  cond: z3 boolean (over the variables) under which it occurs, None = whole path.
         Inputs covered by a known finding are excluded before the finding is raised."""
         import z3 as _z3
-        excl = [_z3.Not(p) for _, p in self.known]
+        known = [(fid, p) for fid, p, kinds in self.known if not kinds or kind in kinds]
+        excl = [_z3.Not(p) for _, p in known]
         q = _z3.And([cond] + excl) if cond is not None else (_z3.And(excl) if excl else _z3.BoolVal(True))
         m = self.sat_with(q)
         if m is None:
             # every failing input of this path is covered by a known finding (or the condition is infeasible)
-            if self.known:
-                for fid, p in self.known:
+            if known:
+                for fid, p in known:
                     mm = self.sat_with(_z3.And(cond, p) if cond is not None else p)
                     if mm is not None and mm != 'unknown':
                         self.known_hits[fid] = self.known_hits.get(fid, 0) + 1
